@@ -5,6 +5,9 @@ import (
 )
 
 func (p *Pool) Stop() {
+	p.stopM.Lock()
+	defer p.stopM.Unlock()
+
 	defer p.runM.Unlock()
 	if p.runM.TryLock() {
 		slog.Warn("worker pool already stopped")
